@@ -30,7 +30,7 @@ EXTRA = {"C01-3": ["C12"], "C10-3": ["C12"], "C07-1": ["C04"], "C17-1": ["C02"],
          "C20-26": ["C12"], "C13-26": ["C07"], "C13-27": ["C15"], "C18-26": ["C02"], "C18-27": ["C12", "C04"], "C18-25": ["C16", "C01"],
          "C04-25": ["C02"], "C19-26": ["C07"], "C01-27": ["C12"], "C12-25": ["C06"],
          "C01-29": ["C03"], "C02-30": ["C03"], "C13-29": ["C03"], "C14-30": ["C03"], "C17-29": ["C02"], "C09-29": ["C14"], "C15-30": ["C16"],
-         "C17-30": ["C04"], "C17-28": ["C02"], "C05-29": ["C01"], "C03-29": ["C01"]}
+         "C17-30": ["C04"], "C17-28": ["C02"], "C05-29": ["C01"], "C03-29": ["C01"], "C17-27": ["C07"]}
 
 
 def run(name):
